@@ -2608,6 +2608,15 @@ class StateEngine(object):
             The Parallel state passes its input (potentially as filtered by the
             “InputPath” field) as the input to each branch’s “StartAt” state.
             """
+            """
+            The enclosing Map or Parallel state may have failed between the
+            delivery of this event and this deferred call, in which case this
+            branch has been terminated and must not launch anything.
+            """
+            if self.branch_has_terminated(state_type, context, id, timeout):
+                self.event_dispatcher.acknowledge(id)
+                return
+
             try:
                 input = apply_path(data, context, state.get("InputPath", "$"))
 
@@ -2765,6 +2774,15 @@ class StateEngine(object):
 
             The “InputPath” field operates as usual, selecting part of the raw input .
             """
+            """
+            The enclosing Map or Parallel state may have failed between the
+            delivery of this event and this deferred call, in which case this
+            branch has been terminated and must not launch anything.
+            """
+            if self.branch_has_terminated(state_type, context, id, timeout):
+                self.event_dispatcher.acknowledge(id)
+                return
+
             try:
                 input = apply_path(data, context, state.get("InputPath", "$"))
 
@@ -3370,6 +3388,9 @@ class StateEngine(object):
         """
         timeout = ASL.get("TimeoutSeconds", self.execution_ttl)
         if self.branch_has_terminated(state_type, context, id, timeout):
+            # branch_has_terminated only acknowledges the other state types.
+            if state_type == "Parallel" or state_type == "Map":
+                self.event_dispatcher.acknowledge(id)
             return
 
         """
